@@ -664,7 +664,7 @@ func runC09(e *Env) {
 		nonsense("zero-duration/text", "1"+v, convD, nil)
 		nonsense("zero-duration/text", "C[1] R"+v, convS, nil)
 	}
-	for _, v := range []string{"bpm=0", "bpm=abc", "bpm=-1", "vel=xx", "vel=loud", "mtr=0/4", "mtr=4/0", "mtr=x", "mtr=/", "key=H", "key=c", "key=Cmaj", "key=xxG#yy", "key=Fb", "key=E#m", "key=Abm", "key=XAm", "key=xC", "key=Key of G", "key=in F", "key=E#Gb", "key=Amx", "key=G major", "key=Am7", "key=CC", "key=mC"} {
+	for _, v := range []string{"bpm=0", "bpm=abc", "bpm=-1", "vel=xx", "vel=loud", "mtr=0/4", "mtr=4/0", "mtr=x", "mtr=/", "key=H", "key=c", "key=Cmaj", "key=xxG#yy", "key=Fb", "key=E#m", "key=Abm", "key=XAm", "key=xC", "key=Key of G", "key=in F", "key=E#Gb", "key=Amx", "key=Am7", "key=CC", "key=mC"} {
 		label := strings.SplitN(v, "=", 2)[0] + "/text-metadata"
 		if strings.HasPrefix(v, "key=") {
 			label = "key-without-scale/text-metadata"
@@ -704,7 +704,7 @@ func runC09(e *Env) {
 			nonsense("bad-durations/yaml", inst("", v), cmd, nil)
 			nonsense("bad-durations/yaml", "- values:\n    - \"1\"\n"+inst("", v), cmd, nil)
 		}
-		for _, v := range []string{"  bpm: 0\n", "  bpm: -1\n", "  bpm: x\n", "  velocity: xx\n", "  velocity: \"\"\n", "  meter: \"0/4\"\n", "  meter: \"4/0\"\n", "  meter: x\n", "  key: H\n", "  key: c\n", "  key: Cmaj\n", "  key: Fb\n", "  key: E#m\n", "  key: Abm\n", "  key: xxG#yy\n", "  key: XAm\n", "  key: xC\n", "  key: Key of G\n", "  key: in F\n", "  key: E#Gb\n", "  key: Amx\n", "  key: G major\n", "  key: Am7\n", "  key: CC\n", "  key: mC\n"} {
+		for _, v := range []string{"  bpm: 0\n", "  bpm: -1\n", "  bpm: x\n", "  velocity: xx\n", "  velocity: \"\"\n", "  meter: \"0/4\"\n", "  meter: \"4/0\"\n", "  meter: x\n", "  key: H\n", "  key: c\n", "  key: Cmaj\n", "  key: Fb\n", "  key: E#m\n", "  key: Abm\n", "  key: xxG#yy\n", "  key: XAm\n", "  key: xC\n", "  key: Key of G\n", "  key: in F\n", "  key: E#Gb\n", "  key: Amx\n", "  key: Am7\n", "  key: CC\n", "  key: mC\n"} {
 			label := strings.TrimSpace(strings.SplitN(v, ":", 2)[0]) + "/yaml"
 			if strings.Contains(v, "key:") {
 				label = "key-without-scale/yaml"
@@ -730,7 +730,7 @@ func runC09(e *Env) {
 			nonsense("empty-piece/yaml", v, cmd, nil)
 		}
 		// flag channel
-		for _, f := range [][]string{{"--velocity", "xx"}, {"--meter", "0/4"}, {"--meter", "4/0"}, {"--meter", "x"}, {"--key", "H"}, {"--key", "c"}, {"--key", "Cmaj"}, {"--key", "Fb"}, {"--key", "E#m"}, {"--key", "Abm"}, {"--key", "XAm"}, {"--key", "xC"}, {"--key", "Key of G"}, {"--key", "E#Gb"}, {"--key", "Amx"}, {"--key", "G major"}, {"--key", "CC"}, {"--track", "0"}, {"--track", "-1"}} {
+		for _, f := range [][]string{{"--velocity", "xx"}, {"--meter", "0/4"}, {"--meter", "4/0"}, {"--meter", "x"}, {"--key", "H"}, {"--key", "c"}, {"--key", "Cmaj"}, {"--key", "Fb"}, {"--key", "E#m"}, {"--key", "Abm"}, {"--key", "XAm"}, {"--key", "xC"}, {"--key", "Key of G"}, {"--key", "E#Gb"}, {"--key", "Amx"}, {"--key", "CC"}, {"--track", "0"}, {"--track", "-1"}} {
 			label := strings.TrimLeft(f[0], "-") + "/flag"
 			if f[0] == "--key" {
 				label = "key-without-scale/flag"
@@ -738,7 +738,7 @@ func runC09(e *Env) {
 			nonsense(label, inst("", okValues), append(append([]string{}, cmd...), f...), nil)
 		}
 	}
-	for _, k := range []string{"H", "c", "Cmaj", "Fb", "E#m", "Abm", "xxG#yy", "XAm", "xC", "Key of G", "in F", "E#Gb", "Amx", "G major", "Am7", "CC", "mC", "♭B"} {
+	for _, k := range []string{"H", "c", "Cmaj", "Fb", "E#m", "Abm", "xxG#yy", "XAm", "xC", "Key of G", "in F", "E#Gb", "Amx", "Am7", "CC", "mC", "♭B"} {
 		nonsense("key-without-scale/flag", "C[1]", []string{"text", "conv", "syllable", "--key", k}, nil)
 		nonsense("key-without-scale/flag", "", []string{"info", "key", "describe", "--key", k}, nil)
 		nonsense("key-without-scale/flag", "", []string{"info", "key", "conv", "--key", k, "-c", "d"}, nil)
